@@ -240,17 +240,20 @@ macro_rules! c03_w128 {
 #[macro_export]
 macro_rules! c03_u_semi {
     ($name:ident, $unw:expr, $U:ty, $D:ty, $N:expr, $X:ty) => {
+        $crate::c03_u_semi!($name, $unw, $U, $D, $N, $X, any, any_alpha);
+    };
+    ($name:ident, $unw:expr, $U:ty, $D:ty, $N:expr, $X:ty, $ga:ident, $gb:ident) => {
         $crate::harness!($name, $unw, {
             use $crate::util::*;
-            let (a, ad) = <$U as BN<$D, $N>>::any();
-            let (b, bd) = <$U as BN<$D, $N>>::any_alpha();
+            let (a, ad) = <$U as BN<$D, $N>>::$ga();
+            let (b, bd) = <$U as BN<$D, $N>>::$gb();
             $crate::nd::assume(!dzero(&bd));
             let (n, d) = (dval_u128(&ad) as $X, dval_u128(&bd) as $X);
             let q = dval_u128(&(a / b).dg()) as $X;
             let r = dval_u128(&(a % b).dg()) as $X;
             assert!(r < d, "remainder below the divisor");
             assert!(q <= n && q * d + r == n, "n == q * d + r");
-            $crate::reach!(q > 255 && r != 0 && bd[1] != 0, "multi-digit quotient with a multi-digit divisor");
+            $crate::reach!(q > <$D as Dig>::MAXD.to_u64() as $X && r != 0 && bd[1] != 0, "multi-digit quotient with a multi-digit divisor");
         });
     };
 }
